@@ -617,8 +617,15 @@ impl Sim {
                 let si = self.s(*slot);
                 let site = *site as usize % g::RESERVE_SITES.len();
                 let w = self.slots[si].world.as_mut().unwrap();
-                if let Err(c) = sut(|| g::reserve(w, site, *n as usize)) {
-                    return Err(unexpected(c, "World::reserve", "C05"));
+                // 65535 stands for an amount no allocation can satisfy: the call has to refuse it by
+                // panicking ("capacity overflow") and leave the world as it was.
+                let amount = if *n == u16::MAX { usize::MAX } else { *n as usize };
+                match sut(|| g::reserve(w, site, amount)) {
+                    Ok(()) => {}
+                    Err(Caught::Other(msg)) if amount == usize::MAX && msg.contains("capacity overflow") => {
+                        self.probes.hit("reserve_overflow_refused");
+                    }
+                    Err(c) => return Err(unexpected(c, "World::reserve", "C05")),
                 }
                 self.probes.hit("reserve");
             }
@@ -1511,6 +1518,12 @@ impl Sim {
             }
             if dump.archetypes.len() > 64 {
                 probes.hit("world_has_more_than_64_archetypes");
+            }
+            if dump.archetypes.len() > 128 {
+                probes.hit("world_has_more_than_128_archetypes");
+            }
+            if dump.slots.len() > 131072 {
+                probes.hit("world_has_more_than_131072_slots");
             }
             if dump.slots.len() > 65536 {
                 probes.hit("world_has_more_than_65536_slots");
